@@ -283,6 +283,30 @@ def unit_shadow(how):
     return s
 
 
+def unit_class_attr():
+    """a class-level attribute initialised from a tracked module variable, read through self in a method"""
+    var = {"name": "V0", "module": "main", "values": ["1", "2"]}
+    extra = [{"name": "C", "module": "main", "cls": "C", "params": [], "body": [], "init": [], "clsattr": [{"k": "read", "var": "V0"}]}]
+    return _scaffold([{"k": "method", "cls": "C"}], extra_funcs=extra, vars_=[var], eps=[{"id": "V0", "kind": "var_value", "n": 2}],
+                     sid="U/class_attr", key="class_attr_reads_var")
+
+
+def unit_local_import():
+    """the helper is imported inside the function that calls it"""
+    extra = [{"name": "h1", "module": "lib", "params": [], "body": []}]
+    s = _scaffold([{"k": "call", "fn": "h1", "form": "local_import"}], extra_funcs=extra, eps=[{"id": "tag:h1", "kind": "body_tag", "n": 2}],
+                  sid="U/local_import", key="import_inside_function")
+    return s
+
+
+def unit_inherited():
+    """the method is defined in a base class of the class that is instantiated"""
+    extra = [{"name": "B", "module": "main", "cls": "B", "params": [], "body": [], "init": []},
+             {"name": "C", "module": "main", "cls": "C", "base": "B", "inherit_only": True, "params": [], "body": []}]
+    return _scaffold([{"k": "method", "cls": "C"}], extra_funcs=extra, eps=[{"id": "tag:B", "kind": "body_tag", "n": 2}],
+                     sid="U/inherited_method", key="inherited_method")
+
+
 def unit_structural(kind):
     """edits outside every cone: unrelated definitions, reordering, comments"""
     var = {"name": "V0", "module": "main", "values": ["1"]}
@@ -321,6 +345,7 @@ def unit_programs(level="quick"):
     out += [unit_twice(k) for k in ("x", "x_default", "x_lit")]
     out.append(unit_default_twice())
     out += [unit_shadow(h) for h in SHADOWS]
+    out += [unit_class_attr(), unit_local_import(), unit_inherited()]
     return out
 
 
